@@ -677,13 +677,15 @@ def reuse_histories(rng, tier):
             sparse = i % 3 == 2 and i % 4 < 2
             r = rng.randint(2, 3)
 
-            def pick(rng, values, prev, sparse=sparse):
+            stick = 1.0 if i % 4 < 2 else .5     # half of the histories stay with ONE family
+
+            def pick(rng, values, prev, sparse=sparse, stick=stick):
                 v = values["g"]
                 base = dict(n=v["n"], edges=v["edges"], opb=rng.random() < .3)
                 if sparse:
                     b = values["b"]
                     return ["o_sstone", dict(base, l=b["l"], r=b["r"], bedges=b["edges"])]
-                if (prev[0] if prev and rng.random() < .5 else rng.choice(["o_peb", "o_stone"])) == "o_peb":
+                if (prev[0] if prev and rng.random() < stick else rng.choice(["o_peb", "o_stone"])) == "o_peb":
                     return ["o_peb", base]
                 return ["o_stone", dict(base, k=rng.choice([1, 2, 2, 3]))]
             slots = {"g": {"value": value, "form": form, "salt": rng.randint(0, 10 ** 6)}}
